@@ -40,6 +40,11 @@ RetimeOK(m1, m2, r) ==
   /\ Ck("RetimeNonNeg", \A i \in 1..Len(r) : NonNeg(r[i]))
   /\ Ck("RetimeAboveRound1", \A i \in 1..Len(r) : Le(m1[i], r[i]))
 \* when the feed round yields less meat in total, the round is skipped instead
+\* what the next round is told: the running total it may eat from is the cumulative sum of the monthly series it is given
+RECURSIVE Prefix(_, _)
+Prefix(q, k) == IF k = 0 THEN Zero ELSE Add(q[k], Prefix(q, k - 1))
+RunningOK(meat, running) == Ck("RunningTotalIsCumulative", Len(meat) = Len(running) /\ \A i \in 1..Len(meat) : Eq(running[i], Prefix(meat, i)))
+
 RetimeSkipOK(m1, m2) == Ck("RetimeSkipOnlyWhenLess", SLt(Total(m2), Total(m1)) \/ ~Le(Total(m1), Total(m2)))
 
 (* Bump: biofuel b, feed f, demand ceilings maxB, maxF (monthly series); b2, f2 the adjusted series; dom: b <= maxB and f <= maxF held *)
